@@ -78,13 +78,29 @@ def _gen_invalid(rng, cfg, sess, salt):
     elif cls == "wb_b_nonincreasing":
         b = rng.choice([[0, ln, ln], [0, ln, ln - 1] if ln > 1 else [0, ln, ln], [0, 0, ln]])
     elif cls == "wb_g_nonincreasing":
-        g = rng.choice([[base, base + ln + 1, base + ln + 1], [base, base + ln + 1, base + ln], [base, base, base + 2 * ln + 3]])
+        g = rng.choice([[base, base + ln + 1, base + ln + 1], [base, base + ln + 1, base + ln], [base, base, base + 2 * ln + 3],
+                        [base, base + 5 * cap + ln, base + ln + 2]])  # (last one: goes backwards in a later file)
     elif cls == "wb_overlap":
-        g = [base, base + ln - 1 if ln > 1 else base + 0, base + 2 * ln + 12]
-        if ln == 1:
-            b = [0, 2, 4]
-            g = [base, base + 1, base + 12]
-            n = 6
+        v = rng.random()
+        if v < 0.4:
+            g = [base, base + ln - 1 if ln > 1 else base + 0, base + 2 * ln + 12]
+            if ln == 1:
+                b = [0, 2, 4]
+                g = [base, base + 1, base + 12]
+                n = 6
+        else:
+            # the overlapping pair comes later, after a gap at least as large as the overlap (so that only a
+            # per-pair comparison - not a cumulative one - sees it); 3 or 4 blocks
+            slack = rng.choice([1, 5, ln, 200])
+            ov = rng.randrange(1, min(ln, slack) + 1) if ln > 1 else 1
+            L = max(ln, 2)
+            b = [0, L, 2 * L]
+            g = [base, base + L + slack, base + L + slack + L - ov]
+            n = 3 * L
+            if rng.random() < 0.5:
+                b.append(3 * L)
+                g.append(g[-1] + L + 7)
+                n = 4 * L
     elif cls == "wb_offset_past_end":
         b = [0, ln, n + rng.choice([0, 1, 7])]
     elif cls == "wb_len_mismatch":
@@ -235,8 +251,17 @@ def gen_plan(prop, tier, rng, i):
     plan = {"engine": "rfsim", "cfg": cfg.to_json(), "readdir_seed": rng.randrange(2**32),
             "regen": prop == "C06" or rng.random() < 0.2,
             "cnode": (prop == "C05" and i % 2 == 0) or (prop == "C01" and i % 4 == 0)}
-    if prop == "C11":
-        plan["sessions"] = _gen_sessions(rng, cfg, maxlen)
+    if prop == "C06":
+        # regeneration from every file of the channel: all (<= 16) files in the thorough tier, 3 in quick
+        plan["regen_each"] = 16 if thorough else 3
+    if prop == "C11" or (prop in ("C08", "C04", "C06") and i % 4 == 3):
+        # (C08 / C04 / C06: a quarter of the channels are multi-session / multi-directory ones - bounds, reads,
+        #  file placement and per-session attributes must hold over restarts as well)
+        kp = (0.35 if thorough else 0.2) if prop == "C11" else 0.0
+        plan["sessions"] = [s for s in _gen_sessions(rng, cfg, maxlen, kill_p=kp) if prop == "C11" or not s.get("mismatch")]
+        if not plan["sessions"]:
+            plan["sessions"] = [{"top": "t0", "uuid": "sess0", "start": cfg.start,
+                                 "ops": M.gen_writes(rng, cfg, 3, maxlen=maxlen)}]
     else:
         p_blocks = 0.3
         ops = M.gen_writes(rng, cfg, nw, maxlen=maxlen, p_blocks=p_blocks)
@@ -294,8 +319,9 @@ def _plan_model(cfg, sessions):
     return m
 
 
-def _gen_sessions(rng, cfg, maxlen):
+def _gen_sessions(rng, cfg, maxlen, kill_p=0.0):
     """C11: 1-4 sessions over 1-3 top-level dirs"""
+    after_kill = False
     ns = rng.randrange(2, 5)
     ntops = rng.randrange(1, 4)
     sessions = []
@@ -305,7 +331,7 @@ def _gen_sessions(rng, cfg, maxlen):
     for k in range(ns):
         top = "t%d" % rng.randrange(ntops)
         uuid = "sess%d" % k
-        if k > 0 and rng.random() < 0.3:
+        if k > 0 and rng.random() < 0.3 and not after_kill:
             mm = _mismatch_cfg(rng, cfg)
             tops_used = sorted(set(s["top"] for s in sessions if not s.get("mismatch")))
             if mm and tops_used:
@@ -318,7 +344,7 @@ def _gen_sessions(rng, cfg, maxlen):
             start = cfg.start
         else:
             lo, hi = m.bounds_written()
-            mode = rng.choice(["later", "later", "earlier", "inside"])
+            mode = rng.choice(["later", "later", "earlier", "inside"]) if not after_kill else "later"
             if mode == "later":
                 T = cfg.file_T(hi) + cfg.file_ms * rng.choice([1, 1, 2, 5])
                 start = cfg.first_of(T) + rng.choice([0, 0, 1, cap // 2])
@@ -363,8 +389,13 @@ def _gen_sessions(rng, cfg, maxlen):
                 periods[T] = (top, uuid)
         if not ops:
             continue
-        sessions.append({"top": top, "uuid": uuid, "start": start, "ops": ops,
-                         "cfg": c.to_json() if c.compression != cfg.compression else None})
+        sess = {"top": top, "uuid": uuid, "start": start, "ops": ops,
+                "cfg": c.to_json() if c.compression != cfg.compression else None}
+        if k < ns - 1 and rng.random() < kill_p and not any(o.get("collide") for o in ops):
+            # crash interplay: this recorder is killed at an FS-op boundary; what it had finalized stays
+            sess["kill_at"] = rng.randrange(2, 70)
+            after_kill = True
+        sessions.append(sess)
     return sessions
 
 
@@ -481,11 +512,31 @@ def _run_session(ctx, tree, cfg, sess, si, chan_model, state):
     node = K.Node(tree, child, log_path=os.path.join(sc, "node%d.log" % si))
     pending = {}
     nsteps = 0
+    nfs = 0
+    finalized_T = set()
+    inflight = [None]
+    segs_before = len(chan_model.segs)
+    killed = False
     try:
         while True:
             ev = node.step()
             if ev is None:
                 break
+            if isinstance(ev, K.Op) and ev.kind != "sync":
+                if sess.get("kill_at") is not None and nfs == sess["kill_at"]:
+                    node.kill()
+                    killed = True
+                    res.fault("real_sigkill_of_session")
+                    break
+                nfs += 1
+                b1, b2 = os.path.basename(ev.p1), os.path.basename(ev.p2 or "")
+                if ev.kind == "rename" and b1 == "tmp." + b2 and M.RE_RFFILE.match(b2):
+                    m_ = M.RE_RFFILE.match(b2)
+                    finalized_T.add(int(m_.group(2)) * 1000 + int(m_.group(3)))
+            if isinstance(ev, dict) and ev.get("ev") == "begin" and ev.get("call") == "op":
+                inflight[0] = ops[ev["i"]]
+            if isinstance(ev, dict) and ev.get("ev") == "end":
+                inflight[0] = None
             if isinstance(ev, dict):
                 if ev.get("ev") == "child_exception":
                     raise K.HarnessError("child exception: %s" % ev)
@@ -612,7 +663,18 @@ def _run_session(ctx, tree, cfg, sess, si, chan_model, state):
             node.go()
     finally:
         node.kill()
-    if node.died_of_signal():
+    if killed:
+        # only what was finalized (rename executed) survives; the in-flight call's samples count as written
+        mine = M.RFModel(c)
+        mine.segs = list(chan_model.segs[segs_before:])
+        if inflight[0] is not None and not inflight[0].get("invalid") and not inflight[0].get("collide"):
+            for a, n in RN.op_samples(c, inflight[0]):
+                mine.add(a, n, inflight[0]["salt"])
+        chan_model.segs[segs_before:] = mine.restrict_to_files(finalized_T).segs
+        state["c19_ok"] = True
+        state["killed_sessions"] = state.get("killed_sessions", 0) + 1
+        res.probe("session_killed_%s" % ("with_finalized_files" if finalized_T else "before_any_file"))
+    elif node.died_of_signal():
         ctx.res.violate(ctx.prop, "node_died", "recorder process died with status %s (session %d)" % (
             node.died_of_signal(), si))
         state["broken"] = True
@@ -784,7 +846,7 @@ def _props_query(ctx, rd, cfg, model, q, readers):
                 k, key, pr.get(key), cfg.relpath(T), raw["attrs"].get(key)))
 
 
-def _regenerate(ctx, cfg, model, tree, top, plan, pick_each=False):
+def _regenerate(ctx, cfg, model, tree, top, plan, forced=None):
     """C06: delete drf_properties.h5, recreate from a data file, reader must read back identically"""
     import digital_rf
 
@@ -801,12 +863,31 @@ def _regenerate(ctx, cfg, model, tree, top, plan, pick_each=False):
     pf = os.path.join(chdir, "drf_properties.h5")
     saved = pf + ".saved"
     os.rename(pf, saved)
+    import glob as _glob
+
+    real_glob = _glob.glob
+    if forced is not None:
+        # regeneration from a chosen file: the two unsorted glob() calls of recreate_properties_file are
+        # answered with exactly that subdirectory / file
+        fsd, ffn = forced
+
+        def fake_glob(pattern, *a, **kw):
+            if pattern == os.path.join(chdir, digital_rf.list_drf.GLOB_SUBDIR):
+                return [os.path.join(chdir, fsd)]
+            if os.path.dirname(pattern) == os.path.join(chdir, fsd) and os.path.basename(pattern).startswith("rf@"):
+                return [os.path.join(chdir, fsd, ffn)]
+            return real_glob(pattern, *a, **kw)
+
+        _glob.glob = fake_glob
+        res.probe("regenerated_from_chosen_file")
     try:
         try:
             digital_rf.recreate_properties_file(chdir)
         except Exception as e:  # noqa
             ctx.v("C06", "regeneration_raises", "recreate_properties_file raised %s: %s" % (type(e).__name__, str(e)[:160]))
             return
+        finally:
+            _glob.glob = real_glob
         res.probe("regenerated")
         try:
             rd1 = digital_rf.DigitalRFReader(top)
@@ -827,6 +908,7 @@ def _regenerate(ctx, cfg, model, tree, top, plan, pick_each=False):
         if tuple(b0) != tuple(b1) or not _same(before, after):
             ctx.v("C06", "regenerated_reads_differently", "bounds %s -> %s, data equal: %s" % (b0, b1, _same(before, after)))
     finally:
+        _glob.glob = real_glob
         if os.path.exists(pf):
             os.remove(pf)
         os.rename(saved, pf)
@@ -983,6 +1065,7 @@ def run_plan(prop, plan):
         tops, sessions_info = [], {}
         per_top_models = {}
         early_reader = None
+        early_tops = []
         for si, sess in enumerate(plan["sessions"]):
             top = os.path.join(tree, sess["top"])
             before_n = len(chan_model.segs)
@@ -995,8 +1078,11 @@ def run_plan(prop, plan):
                 sessions_info[sess["uuid"]] = sess["start"]
                 pm = per_top_models.setdefault(top, M.RFModel(cfg))
                 pm.segs.extend(chan_model.segs[before_n:])
-            if early_reader is None and tops:
+            if early_reader is None and tops and all(
+                    os.path.exists(os.path.join(t, cfg.channel, "drf_properties.h5")) for t in tops):
+                # (a reader learns at construction which top-level directories hold the channel)
                 try:
+                    early_tops = list(tops)
                     early_reader = digital_rf.DigitalRFReader(list(tops))
                 except Exception as e:  # noqa
                     ctx.v("C01", "reader_construct_fails", "%s: %s" % (type(e).__name__, e))
@@ -1020,9 +1106,16 @@ def run_plan(prop, plan):
             res.nontrivial = False
             return res
         # ---- files on disk (C04, C06, C07)
+        tops = [t for t in tops if os.path.exists(os.path.join(t, cfg.channel, "drf_properties.h5"))]
+        ctx.tops = tops
+        if not tops:
+            res.probe("nothing_published")
+            return res
         for top in tops:
             errs = RC.check_channel_files(cfg, per_top_models[top], os.path.join(top, cfg.channel), sessions_info,
                                           clock_lo=K.CLOCK0_NS // 10**9)
+            if state.get("killed_sessions"):
+                errs = [e for e in errs if e[1] != "tmp_after_close"]
             ctx.emit(errs, os.path.basename(top))
         # ---- read back (C01, C07, C08): old reader (created after the first session) and fresh one
         try:
@@ -1030,7 +1123,7 @@ def run_plan(prop, plan):
         except Exception as e:  # noqa
             ctx.v(prop, "reader_construct_fails", "%s: %s" % (type(e).__name__, e))
             return res
-        readers = [fresh] + ([early_reader] if early_reader is not None and len(tops) == len(early_reader._top_level_dir_dict) else [])
+        readers = [fresh] + ([early_reader] if early_reader is not None and sorted(early_tops) == sorted(tops) else [])
         eb = chan_model.expected_bounds()
         if eb[0] is not None:
             for rd in readers:
@@ -1052,6 +1145,10 @@ def run_plan(prop, plan):
             _run_cnode(ctx, cfg, plan["sessions"][0]["ops"], sc, os.environ["VSIM_CNODE"])
         if plan.get("regen") and len(tops) >= 1:
             _regenerate(ctx, cfg, per_top_models[tops[0]], tree, tops[0], plan)
+            if plan.get("regen_each"):
+                fin, _, _ = RC.final_files(os.path.join(tops[0], cfg.channel))
+                for sd, fn, T in fin[:plan["regen_each"]]:
+                    _regenerate(ctx, cfg, per_top_models[tops[0]], tree, tops[0], plan, forced=(sd, fn))
         # ---- non-triviality and probes
         nfiles = len(chan_model.files())
         spans = any(len(cfg.files_of(a, a + n - 1)) > 1 for a, n, _ in chan_model.segs)
